@@ -95,3 +95,10 @@ Definition proj_shape (r : list (nat * list polygon)) : list (nat * list (list (
   map (fun lp => (fst lp, map (map ring_shape) (snd lp))) r.
 Definition eq_shape (a b : list (nat * list (list (Z * Z * bool)))) : bool :=
   list_eqb (fun x y => Nat.eqb (fst x) (fst y) && list_eqb (list_eqb shape_eqb) (snd x) (snd y)) a b.
+
+(** ring nesting (C04 clause 3, C18): per level, per polygon, per ring the sorted undirected edges —
+    invariant under rotation and direction of a ring, but keeps which hole belongs to which shell *)
+Definition proj_nesting (r : list (nat * list polygon)) : list (nat * list (list (list edge))) :=
+  map (fun lp => (fst lp, map (map (fun rg => fold_right ins_edge [] (ring_edges rg))) (snd lp))) r.
+Definition eq_nesting (a b : list (nat * list (list (list edge)))) : bool :=
+  list_eqb (fun x y => Nat.eqb (fst x) (fst y) && list_eqb (list_eqb (list_eqb edge_eqb)) (snd x) (snd y)) a b.
